@@ -24,6 +24,8 @@ Fixpoint split_at_first (p : N -> bool) (l : list N) (acc : list N) : option (li
   | [] => None
   | c :: r => if p c then Some (rev acc, r) else split_at_first p r (c :: acc)
   end.
+(* int64 wrap-around of "exponent -= int64(len(fpart))" *)
+Definition wrap64z (z : Z) : Z := ((z + 9223372036854775808) mod 18446744073709551616 - 9223372036854775808)%Z.
 Definition parse_decimal_text (inp : list N) : res dec :=
   match inp with
   | [] => Err
@@ -33,21 +35,22 @@ Definition parse_decimal_text (inp : list N) : res dec :=
       | Some (m, ex) =>
         match ex with
         | [] => Err
-        | _ => match go_signed_val 10 ex with
-               | Some z => if in_int32 z then Ok (z, m) else Err
+        | _ => (* strconv.ParseInt(exp, 10, 64): a written exponent beyond int64 is an error *)
+               match go_signed_val 10 ex with
+               | Some z => if in_int64 z then Ok (z, m) else Err
                | None => Err
                end
         end
       | None => Ok (0%Z, inp)
       end;
-    do '(e1, inp) <-
+    (* the fraction digits lower the written exponent (an int64 subtraction) *)
+    let '(e1, inp) :=
       match split_at_first (fun c => c =? 46) inp [] with
-      | Some (ip, fp) =>
-        (* the adjustment is computed in int64; a result below MinInt32 is a range error *)
-        let e := (e0 - Z.of_nat (length fp))%Z in
-        if (e <? -2147483648)%Z then Err else Ok (e, ip ++ fp)
-      | None => Ok (e0, inp)
-      end;
+      | Some (ip, fp) => (wrap64z (e0 - wrap64z (Z.of_nat (length fp))), ip ++ fp)
+      | None => (e0, inp)
+      end in
+    (* the only range check: the exponent of the value must fit int32, with or without a fraction part *)
+    if negb (in_int32 e1) then Err else
     match go_signed_val 10 inp with
     | None => Err
     | Some n =>
